@@ -5,6 +5,7 @@ import (
 	"encoding/json"
 	"fmt"
 	"go/ast"
+	"go/build"
 	"go/parser"
 	"go/token"
 	"strconv"
@@ -14,6 +15,7 @@ import (
 	"github.com/dave/dst/decorator"
 	"github.com/dave/dst/decorator/resolver"
 	"github.com/dave/dst/decorator/resolver/goast"
+	"github.com/dave/dst/decorator/resolver/gobuild"
 	"github.com/dave/dst/decorator/resolver/gotypes"
 	"github.com/dave/dst/decorator/resolver/guess"
 	"github.com/dave/dst/decorator/resolver/simple"
@@ -33,11 +35,11 @@ type c08Case struct {
 	Src  string `json:"src"`
 	Src2 string `json:"src2,omitempty"` // second file decorated with the same resolver instance
 	Dec  string `json:"dec"`            // goast-guess | goast-map | gotypes
-	Res  string `json:"res"`            // guess | simple | guess-map
+	Res  string `json:"res"`            // guess | simple | guess-map | gobuild-hints | gobuild-find
 }
 
 var c08Decs = []string{"goast-guess", "goast-map", "gotypes"}
-var c08Ress = []string{"guess", "simple", "guess-map"}
+var c08Ress = []string{"guess", "simple", "guess-map", "gobuild-hints", "gobuild-find"}
 
 func importTemplates() []gen.Template { return gen.Load("imports.txt") }
 
@@ -49,7 +51,7 @@ func init() {
 		ID:    "C08",
 		Level: "model_checking",
 		Rule: "choice-tree exploration: every import-bearing template x <=k (quick 2, thorough 3 on small templates) insertions of {/*c*/, // c, newline, blank line, multi-line comment} into any gap (including both sides of the dot of qualified identifiers), gofmt-canonicalised and deduplicated, " +
-			"x decorator resolver {goast+guess, goast+map, gotypes over go/types Uses} x restorer resolver {guess, simple map, guess.WithMap} (only combinations that name every package correctly); " +
+			"x decorator resolver {goast+guess, goast+map, gotypes over go/types Uses} x restorer resolver {guess, simple map, guess.WithMap, gobuild with hints, gobuild with a FindPackage hook} (only combinations that name every package correctly); " +
 			"plus every ordered pair of templates decorated by two decorators (own file sets) that share one goast resolver; oracle: bytes identical to the input whenever the plain (no import management) round trip of that input is, and re-decorating the output yields the same (name, path) sequence; " +
 			"state = (canonical text, resolver pair); non-trivial = file in which at least one identifier carries a path",
 		Assumptions: []string{"dependency packages are the synthetic typed world (fmt, io, os, bytes, a.b/x, c.d/x, e.f/y-go)"},
@@ -252,6 +254,16 @@ func restorerResolver(res string) resolver.RestorerResolver {
 		return simple.New(stdNames)
 	case "guess-map":
 		return guess.WithMap(stdNames)
+	case "gobuild-hints":
+		return gobuild.WithHints("", stdNames)
+	case "gobuild-find":
+		// the documented hook for build systems that do not follow the go build layout
+		return &gobuild.RestorerResolver{FindPackage: func(_ *build.Context, importPath, _ string, _ build.ImportMode) (*build.Package, error) {
+			if n, ok := stdNames[importPath]; ok {
+				return &build.Package{Name: n}, nil
+			}
+			return nil, nil
+		}}
 	}
 	panic("unknown restorer resolver " + res)
 }
